@@ -190,6 +190,7 @@ func checkC15(c *Ctx, r *Result, tier string) {
 	c15StopAll(c, r, dbgIface)
 	c15ReexamineAfterResume(c, r, dbgIface)
 	c15ContinueWakes(c, r, dbgIface)
+	c15NoLockAcrossSuspension(c, r, lfs)
 
 	// ---- R15d: the debugger lock is never re-acquired while held -------------------------------
 	nRe := checkReentrance(c, r, lfs, "R15d", func(class string) bool { return strings.HasPrefix(class, "interpreter.ecalDebugger") })
